@@ -73,6 +73,9 @@ namespace pika {
                     // a late set() leaves the event signalled during the next run and all
                     // waiting callers spin without yielding
                     flag.event_.set();
+#if defined(PIKA_VERIF)
+                    PIKA_VERIF_POINT(930, &flag);    // between the two steps of handing the flag back
+#endif
                     flag.status_.store(0);
 
                     throw;
